@@ -5,7 +5,7 @@ from ..leandrv import Driver
 from .C05 import norm
 
 MODULE = 'Bluebell.Props.C06'
-THEOREMS = ['Bluebell.C06_escape_list_covers_keywords', 'Bluebell.C06_item_escaped', 'Bluebell.C06_num_escape_round_trip', 'Bluebell.C06_unparse_leaves_input', 'Bluebell.C06_unparse_total', 'Bluebell.C06_examples', 'Bluebell.C06_safe_text_verbatim', 'Bluebell.escapeInlines_safe']
+THEOREMS = ['Bluebell.C06_escape_list_covers_keywords', 'Bluebell.C06_item_escaped', 'Bluebell.C06_num_escape_round_trip', 'Bluebell.C06_unparse_leaves_input', 'Bluebell.C06_unparse_total', 'Bluebell.C06_examples', 'Bluebell.C06_safe_text_verbatim', 'Bluebell.escapeInlines_safe', 'Bluebell.C06_keyword_paragraph_round_trip']
 HIER = set(treegen.HIER)
 
 
@@ -184,11 +184,7 @@ def classify(tree, text):
     """structural recognisers for the catalogued escaping defects; each is confirmed causally (the tree with
     the offending characters / elements removed must round-trip)"""
     cands = []
-    if has(tree, lambda n: n[0] in ('listIntroduction', 'listWrapUp') and n[2] and isinstance(n[2][0], str) and n[2][0].lstrip().startswith('ITEM')):
-        cands.append(('F9', lambda t: map_text(t, lambda s, n, i: ('x' + s.lstrip()) if n[0] in ('listIntroduction', 'listWrapUp') and i == 0 and s.lstrip().startswith('ITEM') else s)))
-    if has(tree, lambda n: n[0] in ('p', 'listIntroduction', 'listWrapUp') and n[2] and isinstance(n[2][0], str) and n[2][0].lstrip(' \t\r\n').startswith('P\t')):
-        # F37: the escape list has 'P ', 'P.' and 'P{' but a tab (which pre_parse turns into spaces) is not covered
-        cands.append(('F37', lambda t: map_text(t, lambda s, n, i: re.sub(r'^([ \t\r\n]*P)\t', r'\1x', s) if n[0] in ('p', 'listIntroduction', 'listWrapUp') and i == 0 else s)))
+    # (the recognisers of F9 and F37 were removed when those defects were repaired: a fixed entry suppresses nothing)
     if has(tree, f34):
         cands.append(('F34', lambda t: map_text(t, lambda s, n, i: s.replace('{', '(').replace('}', ')'))))
     HEADISH = ('heading', 'subheading', 'crossHeading')
